@@ -333,6 +333,96 @@ fn sketchgrow(kind: char, regime_beyond: bool, cap: u32) -> Scenario {
     Scenario { name, steps: cap as u64 + 10, viol }
 }
 
+/// The popularity history survives `invalidate_all()`: a weighted cache is half filled by
+/// a few heavy entries (the popularity table is sized for them), a key is looked up five
+/// times, everything is invalidated, and the cache fills up again with many light entries.
+/// No aging step is due, so the key's estimate must not drop, and the key must win the
+/// contest against the never-read least recently used resident.
+fn sketchregrow(kind: char, regime_beyond: bool) -> Scenario {
+    use mini_moka::sync::ConcurrentCacheExt;
+    let name: &'static str = match (kind, regime_beyond) {
+        ('S', true) => "sketchregrow:S:beyond",
+        ('S', false) => "sketchregrow:S:within",
+        _ => "sketchregrow:U",
+    };
+    let hot = 900_000u32;
+    let looks = 5u8;
+    let cap = 1000u32;
+    let mut viol = Vec::new();
+    // (lowest estimate seen after the lookups, hot admitted?, first light key still there?, entry_count)
+    let r = with_deadline(60, move || -> (u8, bool, bool, u64) {
+        let mut low = u8::MAX;
+        if kind == 'S' {
+            let c = sc(cap as u64, true);
+            let clock = c.verif_install_mock_clock();
+            if regime_beyond {
+                clock.advance(Duration::from_millis(1000));
+            }
+            for i in 0..5 {
+                c.insert(i, 100);
+            }
+            c.sync();
+            for _ in 0..looks {
+                let _ = c.get(&hot);
+            }
+            c.sync();
+            low = low.min(c.verif_estimate(&hot));
+            clock.advance(Duration::from_millis(1000));
+            c.invalidate_all();
+            c.sync();
+            low = low.min(c.verif_estimate(&hot));
+            for i in 10..10 + cap {
+                c.insert(i, 1);
+                if i % 25 == 24 {
+                    c.sync();
+                    low = low.min(c.verif_estimate(&hot));
+                }
+            }
+            c.sync();
+            low = low.min(c.verif_estimate(&hot));
+            c.insert(hot, 1);
+            c.sync();
+            (low, c.contains_key(&hot), c.contains_key(&10), c.entry_count())
+        } else {
+            let mut c = uc(cap as u64, true);
+            let _clock = c.verif_install_mock_clock();
+            for i in 0..5 {
+                c.insert(i, 100);
+            }
+            for _ in 0..looks {
+                let _ = c.get(&hot);
+            }
+            low = low.min(c.verif_estimate(&hot));
+            c.invalidate_all();
+            low = low.min(c.verif_estimate(&hot));
+            for i in 10..10 + cap {
+                c.insert(i, 1);
+                if i % 25 == 24 {
+                    low = low.min(c.verif_estimate(&hot));
+                }
+            }
+            low = low.min(c.verif_estimate(&hot));
+            c.insert(hot, 1);
+            (low, c.contains_key(&hot), c.contains_key(&10), c.entry_count())
+        }
+    });
+    match r {
+        None => viol.push(v("C09", "scale:call-did-not-return", format!("{name}: the scenario did not finish within 60 s"), name)),
+        Some(Err(p)) => viol.push(v("C08", "scale:panic", format!("{name}: {}", panic_msg(&p)), name)),
+        Some(Ok((low, hot_in, first_in, ec))) => {
+            if low < looks {
+                let d = format!("{name}: a key was looked up {looks} times in a weighted cache (capacity {cap}) half filled by five heavy entries; after invalidate_all() and while the cache filled up with unit-weight entries its estimate dropped to {low} although no aging step is due");
+                viol.push(v("C14", "scale:estimate-dropped-without-aging", d.clone(), name));
+                viol.push(v("C13", "scale:estimate-dropped-without-aging", d, name));
+            }
+            if !hot_in || first_in {
+                viol.push(v("C13", "scale:popular-newcomer-rejected", format!("{name}: full cache of never-read unit-weight entries; a newcomer that was looked up {looks} times (before an invalidate_all()) must replace the least recently used resident (key 10): newcomer resident = {hot_in}, key 10 resident = {first_in}, entry_count() = {ec}"), name));
+            }
+        }
+    }
+    Scenario { name, steps: cap as u64 + 20, viol }
+}
+
 pub fn scenarios(filter: &str) -> Vec<Scenario> {
     let mut out = Vec::new();
     let want = |n: &str| filter.is_empty() || n.starts_with(filter) || filter == "all";
@@ -351,6 +441,11 @@ pub fn scenarios(filter: &str) -> Vec<Scenario> {
             out.push(sketchgrow('S', false, cap));
             out.push(sketchgrow('U', true, cap));
         }
+    }
+    if want("sketchregrow") {
+        out.push(sketchregrow('S', true));
+        out.push(sketchregrow('S', false));
+        out.push(sketchregrow('U', true));
     }
     if want("hugeweights") {
         out.push(hugeweights('S'));
